@@ -19,6 +19,7 @@ import (
 	"verifh/drv"
 	"verifh/fakeredis"
 	"verifh/mon"
+	"verifh/resp"
 )
 
 const addr = "127.0.0.1:6379"
@@ -182,7 +183,8 @@ func (d *driver) runConfig(c cfg, nops int, big bool) string {
 		maxItems = 3
 	}
 	k := ""
-	key := func() string { return fmt.Sprintf("%s hashes=%s", base, k) }
+	shape := ""
+	key := func() string { return fmt.Sprintf("%s hashes=%s%s", base, k, shape) }
 	note := func(op string, keys []string, res string) {
 		hist = append(hist, opRec{Op: op, Keys: short(keys), Res: res})
 		if len(hist) > 12 {
@@ -194,9 +196,22 @@ func (d *driver) runConfig(c cfg, nops int, big bool) string {
 		run.Observe("op_errors", 1)
 	}
 	pickMember := func() string { return memberList[d.rng.Intn(len(memberList))] }
+	var checkMulti func(keys []string) bool
+	refuse := "" // when set, the server answers the next add script with this error reply instead of running it
 	add := func(keys []string, multi bool) bool {
 		var err error
 		op := "Add"
+		var rule *fakeredis.Rule
+		refused := refuse
+		refuse = ""
+		if refused != "" {
+			v := resp.Err(refused)
+			rule = srv.Plan(&fakeredis.Rule{Name: "refuse-add", Times: 1, Action: fakeredis.Action{Reply: &v},
+				Match: func(_ *fakeredis.Conn, a []string) bool {
+					return len(a) > 5 && strings.HasPrefix(strings.ToUpper(a[0]), "EVAL") && a[2] == "2"
+				}})
+			defer srv.ClearPlan()
+		}
 		if d.guard(key(), op, func() {
 			if multi {
 				op = "AddMulti"
@@ -207,8 +222,18 @@ func (d *driver) runConfig(c cfg, nops int, big bool) string {
 		}) {
 			return false
 		}
+		fired := rule != nil && srv.RuleFired(rule) > 0
 		if err != nil {
+			if fired { // the server refused the add and the caller was told: nothing was added
+				note(op, keys, "refused: "+err.Error())
+				run.Observe("adds_refused_by_server_and_reported", 1)
+				return true
+			}
 			fail(op, err)
+			return false
+		}
+		if rule != nil && !fired {
+			run.Inconclusive("the fault rule for the add script did not fire")
 			return false
 		}
 		note(op, keys, "ok")
@@ -217,6 +242,16 @@ func (d *driver) runConfig(c cfg, nops int, big bool) string {
 				members[x] = true
 				memberList = append(memberList, x)
 			}
+		}
+		if fired {
+			// the server answered the add script with an error reply, yet the call reported success: by the statement the items
+			// now count as added, so they must be present
+			run.Observe("adds_refused_by_server_but_reported_successful", 1)
+			shape = " add-answered-with-error-reply=" + strings.SplitN(refused, " ", 2)[0]
+			note("(server replied)", nil, refused)
+			ok := checkMulti(keys[:min(len(keys), maxItems)])
+			shape = ""
+			return ok
 		}
 		run.Observe("adds", 1)
 		run.Observe("items_added", int64(len(keys)))
@@ -228,7 +263,7 @@ func (d *driver) runConfig(c cfg, nops int, big bool) string {
 		}
 		return true
 	}
-	checkMulti := func(keys []string) bool {
+	checkMulti = func(keys []string) bool {
 		var res []bool
 		var err error
 		if d.guard(key(), "ExistsMulti", func() { res, err = bf.ExistsMulti(ctx, keys) }) {
@@ -345,8 +380,13 @@ func (d *driver) runConfig(c cfg, nops int, big bool) string {
 	if !checkOne(memberList[0]) {
 		return k
 	}
+	refusals := []string{"OOM command not allowed when used memory > 'maxmemory'.", "READONLY You can't write against a read only replica.",
+		"WRONGTYPE Operation against a key holding the wrong kind of value", "ERR Error running script (call to f_0): @user_script:12: -MISCONF Redis is configured to save RDB snapshots"}
 	for i := 0; i < nops; i++ {
 		ok := true
+		if d.rng.Intn(12) == 0 {
+			refuse = refusals[d.rng.Intn(len(refusals))] // consumed by the next add, if that is what comes next
+		}
 		switch p := d.rng.Intn(100); {
 		case p < 15 || len(memberList) == 0:
 			x := d.fresh("m")
@@ -418,7 +458,7 @@ func (d *driver) runConfig(c cfg, nops int, big bool) string {
 func TestC35(t *testing.T) {
 	run := mon.Start(t, "C35", "exploration",
 		"every grid point (expectedNumberOfItems in {0,1,2,3,10,100,1e4,1e6,1e7,+one near the 2^32-bit limit in the thorough tier} x falsePositiveRate in {5e-324,1e-300,1e-12,1e-6,0.01,0.5,0.7,0.7071,0.7072,0.75,0.9,0.99,0.999999,1-2^-53,1,1+2^-52,0,-0.5,NaN,+Inf} x read-only-script option) that NewBloomFilter accepts gets a random history of "+
-			"Add/AddMulti (1-16 items, re-adds, duplicates, binary/long/unicode keys)/Exists/ExistsMulti (members and fresh keys mixed in random positions)/Count/Reset/Delete against a reference set, the shipped Lua scripts executed by fakeredis+minilua; plus a characterisation sweep (n x rate around 1/sqrt(2)) with one Add+Exists+ExistsMulti each; "+
+			"Add/AddMulti (1-16 items, re-adds, duplicates, binary/long/unicode keys)/Exists/ExistsMulti (members and fresh keys mixed in random positions)/Count/Reset/Delete against a reference set, about one add in five answered by the server with an error reply (OOM, READONLY, WRONGTYPE, script error) instead of being executed (an Add that returns nil then still counts as added), the shipped Lua scripts executed by fakeredis+minilua; plus a characterisation sweep (n x rate around 1/sqrt(2)) with one Add+Exists+ExistsMulti each; "+
 			"a case = (n, rate, option, hash functions seen on the wire, call kind, how many members / fresh keys were queried), non-trivial when a member was queried (or Count had a positive predecessor)")
 	defer run.Finish()
 	run.Assume("fakeredis BITFIELD/BITFIELD_RO/SET/DEL/INCRBY/GET and minilua execute the shipped scripts as Redis 7 would (harness self tests)",
@@ -529,5 +569,5 @@ func TestC35(t *testing.T) {
 		}
 	}
 	run.Extra("rejected_configs", rejected)
-	run.Require("member_answers_checked", "multi_positions_checked", "count_checks", "resets_and_deletes", "bitfield_set_in_scripts", "bitfield_get_in_scripts", "bitfield_ro_get_in_scripts", "evalsha_ro_received", "true_negatives")
+	run.Require("member_answers_checked", "multi_positions_checked", "count_checks", "resets_and_deletes", "adds_refused_by_server_and_reported", "bitfield_set_in_scripts", "bitfield_get_in_scripts", "bitfield_ro_get_in_scripts", "evalsha_ro_received", "true_negatives")
 }
